@@ -162,6 +162,34 @@ fn case(tier: Tier, rng: &mut Rng, rep: &mut Report) {
         // the reverse direction is only defined for vertex-oriented plain searches
         qc.reverse = !edge_oriented && !qc.alg.is_ksp() && rng.chance(0.45);
         check_query(&qc, &si, rep);
+        // the free-standing edge-oriented A* entry point (public, not used by SearchAlgorithm's own wrapper): its tree
+        // follows the same conventions as the edge-oriented trees above
+        if edge_oriented && !qc.alg.is_ksp() {
+            if let Od::Edge(oe, de) = qc.od {
+                use routee_compass_core::algorithm::search::a_star::a_star_algorithm::run_a_star_edge_oriented;
+                use routee_compass_core::algorithm::search::direction::Direction;
+                use routee_compass_core::model::network::EdgeId;
+                use routee_compass_core::model::unit::Cost;
+                let wf = match &qc.alg {
+                    Alg::AStar(w) => w.map(Cost::new),
+                    _ => Some(Cost::new(0.0)),
+                };
+                rep.eval();
+                match crate::hooks::catch(|| run_a_star_edge_oriented(EdgeId(oe), de.map(EdgeId), &Direction::Forward, wf, &si)) {
+                    Ok(Ok(r)) => {
+                        let fails = crate::oracle::route::check_tree(&qc.world.net, &r.tree, qc.world.net.edges[oe].dst, false, Some(oe));
+                        if let Some(f) = fails.first() {
+                            let class = f.split_whitespace().next().unwrap_or("T?").to_string();
+                            rep.violate(&format!("C01|run_a_star_edge_oriented|{class}|{}", if de.is_some() { "with-destination" } else { "tree-only" }), format!("{f} (origin edge {oe}, destination edge {de:?})"), || qc.to_json());
+                        } else {
+                            rep.count("free_standing_edge_oriented_trees_confirmed", 1);
+                        }
+                    }
+                    Ok(Err(_)) => rep.count("free_standing_edge_oriented_errors_(reachability_is_C05)", 1),
+                    Err(pm) => rep.violate(&format!("C01|run_a_star_edge_oriented|{}", crate::hooks::panic_sig(&pm)), pm, || qc.to_json()),
+                }
+            }
+        }
     }
     for m in &qc.world.net.motifs {
         rep.seen("motifs", m.clone());
